@@ -491,7 +491,7 @@ pub struct Lib {
 pub fn build_lib() -> Result<Lib, String> {
     let td = verif_root().join("harness/target/probe");
     let o = Command::new("cargo")
-        .args(["build", "--release", "--offline", "--manifest-path", "/repo/Cargo.toml", "--target-dir"])
+        .args(["build", "--release", "--offline", "--manifest-path", &format!("{}/Cargo.toml", std::env::var("VERIF_REPO").unwrap_or_else(|_| "/repo".into())), "--target-dir"])
         .arg(&td)
         .env("RUSTFLAGS", "")
         .env_remove("CARGO_ENCODED_RUSTFLAGS")
